@@ -128,3 +128,17 @@ class Run:
 
 class Watchdog(Exception):
     pass
+
+
+def overlap_results(make_a, make_b, limit=80):
+    """Two calls that overlap in time: A is pre-empted at each of its library line boundaries, B runs to completion in
+    between, A finishes.  `make_a` / `make_b` build fresh zero-argument callables (so that every execution starts from the
+    same inputs).  Yields (k, result_a, result_b); k = 0 is the sequential reference A; B."""
+    r = Run({'A': make_a(), 'B': make_b()}, [['A', None], ['B', None]], lambda: None)
+    res = r.run()
+    yield 0, res.get('A'), res.get('B')
+    n = min(r.counts['A'], limit)
+    for k in range(1, n + 1):
+        r = Run({'A': make_a(), 'B': make_b()}, [['A', k], ['B', None], ['A', None]], lambda: None)
+        res = r.run()
+        yield k, res.get('A'), res.get('B')
